@@ -82,6 +82,17 @@ Feed(via) ==
   /\ hasSrc' = FALSE
   /\ UNCHANGED <<wrapped, nextId>>
 
+(* the same with the source passed by reference (`(&mut it).feed_into(cb)`, `cb.extend(&mut it)`): the items  *)
+(* that were not offered stay in the source - nothing is pulled from it after the callback asked to stop     *)
+FeedRef(via) ==
+  /\ hasSrc /\ ~wrapped /\ sink.kind # "none"
+  /\ via \in {"feed_ref", "extend_ref"}
+  /\ LET k == Offered(Len(src)) IN
+       /\ sink' = [sink EXCEPT !.got = @ \o SubSeq(src, 1, k), !.calls = @ + k]
+       /\ src' = SubSeq(src, k + 1, Len(src))
+       /\ last' = IF via = "extend_ref" THEN L("ok", 0) ELSE L("count", k)
+  /\ UNCHANGED <<hasSrc, wrapped, drops, nextId>>
+
 (* CIterator::new / From<&mut I> / as_citer (iter.rs:51-83)                                  *)
 Wrap == /\ hasSrc /\ ~wrapped /\ wrapped' = TRUE
         /\ UNCHANGED <<src, hasSrc, sink, drops, nextId>> /\ last' = L("ok", 0)
@@ -118,6 +129,7 @@ Do(e) ==
   \/ e.op = "NewSrc"      /\ NewSrc(e.n)
   \/ e.op = "NewSink"     /\ NewSink(e.kind, e.stop)
   \/ e.op = "Feed"        /\ Feed(e.via)
+  \/ e.op = "FeedRef"     /\ FeedRef(e.via)
   \/ e.op = "Wrap"        /\ Wrap
   \/ e.op = "DropWrap"    /\ DropWrap
   \/ e.op = "Next"        /\ NextItem(e.through)
